@@ -125,7 +125,7 @@ func (a *agg) knownHits() []string {
 var wantProbes = map[string][]string{
 	"C09": {"mutex_lock", "mutex_contended", "preempt_holding_mutex", "stall_holding_mutex", "global_handoff", "recovered_panic", "published", "shared_read", "fault_step_invalid_panic", "fault_step_evict"},
 	"C10": {"moment_in_current_year", "near_new_year", "slot_contains_jie", "rat_slot", "lichun_day", "clock_jump_between_lookups", "zone_change_between_lookups", "base_not_default", "repeat_pillars_other_clock", "jie_on_full_hour", "sect_argument_other_than_1_or_2", "pillars_of_a_moment_just_before_base", "result_list_mutated_by_caller"},
-	"C14": {"fix_add_future", "fix_add_before_existing", "fix_add_between", "fix_replace", "fix_remove", "fix_remove_absent", "fix_names_extended", "fix_followup_on_touched_record", "fix_uses_appended_name", "fix_readd_removed_day", "fix_names_renamed_in_place", "fix_add_digit_pattern_at_year_boundary", "fix_add_block", "fix_add_block_longer_than_31_days", "workday_walk_into_recorded_run", "fixes_back_to_back_without_a_query", "bad_key_recovered", "target_records_not_contiguous", "workday_steps", "salary_checked"},
+	"C14": {"fix_add_future", "fix_add_before_existing", "fix_add_between", "fix_replace", "fix_remove", "fix_remove_absent", "fix_names_extended", "fix_followup_on_touched_record", "fix_uses_appended_name", "fix_readd_removed_day", "fix_names_renamed_in_place", "fix_add_digit_pattern_at_year_boundary", "fix_add_block", "fix_add_block_longer_than_31_days", "workday_walk_into_recorded_run", "fixes_back_to_back_without_a_query", "fix_names_same_day_twice", "forgotten_label_repaired", "walk_over_unlabelled_record_panicked_and_recovered", "bad_key_recovered", "target_records_not_contiguous", "workday_steps", "salary_checked"},
 }
 
 func (a *agg) write(tier string, seed uint64, wall float64, nviol int, streams int) {
